@@ -2,7 +2,8 @@ import OntVerif.Model.ConnCtl
 import OntVerif.Util.Hex
 /-! Line driver for C36: runs one schedule `S:<maxIn>:<maxIp>:<maxOut>:<rsv> op;op;…` on the connection-controller
 model, one `macroStep` per op (a thread runs to its next I/O point, as the harness forces the real goroutines to),
-and prints the controller's observables after every op.  Both variants are run; `asShipped ## sound` when they differ. -/
+and prints the controller's observables after every op.  The two variants differ only in what a repeated `Close()` of
+a stale `Conn` does; `asShipped ## sound` is printed when that makes a difference. -/
 namespace OntVerif.Driver.C36
 open OntVerif.Util OntVerif.Model.ConnCtl
 
@@ -56,11 +57,12 @@ def showRes : Res → String
   | .chk => "chk"
   | .saved => "saved"
   | .closed f => if f then "closed!fatal" else "closed"
+  | .again f => if f then "again!fatal" else "again"
   | .rej r => "rej:" ++ rejName r
 
-def showState (v : Variant) (ips : List Nat) (r : Res) (s : State) : String :=
+def showState (ips : List Nat) (r : Res) (s : State) : String :=
   let own := match s.own with | none => "-" | some a => s!"{a.1}.{a.2}"
-  let ipc := String.intercalate "," (ips.map (fun ip => s!"{ip}:{ipSlots v s ip}"))
+  let ipc := String.intercalate "," (ips.map (fun ip => s!"{ip}:{ipSlots s ip}"))
   s!"{showRes r} I={showAddrs (s.bound .inb)} O={showAddrs (s.bound .outb)} L={showAddrs s.listen} C={showAddrs s.connecting} own={own} P={s.peers.length} ip={ipc}"
 
 def indexOf (ds : List String) (d : String) : Nat := (ds.takeWhile (· != d)).length
@@ -69,7 +71,7 @@ def runOps (v : Variant) (ips : List Nat) (ds : List String) : State → List St
   | _, [], acc => acc.reverse
   | s, o :: rest, acc =>
     let (s', r) := macroStep v s (indexOf ds o)
-    runOps v ips ds s' rest (showState v ips r s' :: acc)
+    runOps v ips ds s' rest (showState ips r s' :: acc)
 
 def runLine (v : Variant) (cfg : Cfg) (ops : List String) : Option String :=
   let ds := ops.eraseDups
